@@ -30,6 +30,9 @@ import traceback
 ROOT = os.path.dirname(os.path.dirname(os.path.abspath(__file__)))
 REPO = os.environ.get("VERIF_REPO", "/repo")
 NSHARDS = int(os.environ.get("VERIF_SHARDS", "16"))
+# Evidence and new replays describe runs against /repo itself. A run pointed at another tree (a scratch worktree with a
+# seeded change, VERIF_REPO=<dir>) writes its output next to that tree instead, so committed evidence is never clobbered.
+OUT_ROOT = ROOT if os.path.realpath(REPO) == os.path.realpath("/repo") else os.path.realpath(REPO) + ".vpout"
 
 
 # ----------------------------------------------------------------------------- basics
@@ -371,8 +374,8 @@ def write_evidence(mod, tier, seed, wall, merged, violations, extra=None, exit_c
         cov.update(extra)
     ev = {"property_id": mod.ID, "tier": tier, "seed": seed, "level": mod.LEVEL, "coverage": cov,
           "assumptions": list(getattr(mod, "ASSUMPTIONS", [])), "wall_s": round(wall, 2), "violations": violations}
-    os.makedirs(os.path.join(ROOT, "evidence"), exist_ok=True)
-    path = os.path.join(ROOT, "evidence", mod.ID + ".json")
+    os.makedirs(os.path.join(OUT_ROOT, "evidence"), exist_ok=True)
+    path = os.path.join(OUT_ROOT, "evidence", mod.ID + ".json")
     with open(path + ".tmp", "w") as f:
         json.dump(ev, f, indent=1, sort_keys=True, ensure_ascii=True)
         f.write("\n")
@@ -416,7 +419,7 @@ def main(prop_id, tier, seed):
     t0 = time.time()
     prop_id = prop_id.upper()
     import shutil
-    shutil.rmtree(os.path.join(ROOT, "replays", "new", prop_id), ignore_errors=True)
+    shutil.rmtree(os.path.join(OUT_ROOT, "replays", "new", prop_id), ignore_errors=True)
     ctx = multiprocessing.get_context("fork")
     tasks = [(prop_id, tier, seed, s, NSHARDS) for s in range(NSHARDS)]
     timeout = int(os.environ.get("VERIF_TIMEOUT", "1500" if tier == "quick" else "14000"))
@@ -481,9 +484,11 @@ def main(prop_id, tier, seed):
         b = buckets[k]
         case, evals = shrink_case(mod, b["case"], k, max_evals)
         h = hashlib.sha1(k.encode()).hexdigest()[:10]
-        os.makedirs(os.path.join(ROOT, "replays", "new", prop_id), exist_ok=True)
+        os.makedirs(os.path.join(OUT_ROOT, "replays", "new", prop_id), exist_ok=True)
         rel = os.path.join("replays", "new", prop_id, h + ".json")
-        with open(os.path.join(ROOT, rel), "w") as f:
+        if OUT_ROOT != ROOT:
+            rel = os.path.join(OUT_ROOT, rel)
+        with open(os.path.join(OUT_ROOT, rel) if not os.path.isabs(rel) else rel, "w") as f:
             json.dump({"property": prop_id, "bucket": k, "failure": b["failure"], "seed": seed, "tier": tier,
                        "occurrences": b["count"], "shrink_evaluations": evals, "case": case}, f, indent=1,
                       ensure_ascii=True, default=str)
